@@ -1,9 +1,12 @@
 package s0333
 
+type G1 struct {
+	F0x0 *int32
+}
 
 type T struct {
-	F0 *int32
-	F1 []int64
-	F2 []uint32
+	F0 *G1
+	F1 *int64
+	F2 uint32
 	F3 uint64
 }
